@@ -877,8 +877,64 @@ def R4(ctx: Ctx) -> RuleResult:
                 return r
     if not loops:
         raise AnalysisError('R4', '_split_and_expr: no work-list loop found')
+    inner = [e for pg, flow, binds, effs in loops[0].paths for e in effs if isinstance(e, Loop) and e.target == '<while>'] if len(loops[0].paths) == 1 else []
+    if inner and not gen_mode:
+        _r4_descent(r, fi, loops[0], inner[0], phi)
+        return r
     _r4_loop(r, fi, loops[0], phi, gen_mode)
     return r
+
+
+def _r4_descent(r: RuleResult, fi, outer: Loop, inner: Loop, phi: Term) -> None:
+    """the work list holds only the operands that wait: each round takes one and walks down the RIGHT operands of nested
+    conjunctions in an inner loop - `while not is_true(x)`: false raises; x = transform(x); a conjunction pushes its left
+    operand and goes on with the right one; anything else is emitted once and ends the walk"""
+    if not (isinstance(outer.iter, TupleT) and outer.iter.items == (phi,)):
+        r.fail('_split_and_expr:start', f'work list does not start with the input: {outer.iter!r}', fi.where)
+    seen = {'true': False, 'false': False, 'and': False, 'emit': False}
+    # the walk starts from the element taken off the work list and runs while it is not literally true
+    var = next((n for n, v in inner.inits if isinstance(v, Call) and call_name(v) == 'pop' and call_recv(v) == outer.iter and not v.args), None)
+    cond = inner.cond
+    if var is not None and isinstance(cond, Op) and cond.op == 'not' and _lit_test(cond.args[0]) == 'true' and any(x == Opaque(f'loopvar:{var}') for x in walk(cond)):
+        seen['true'] = True
+    cur = Opaque(f'loopvar:{var}') if var else None
+    for rg, exc in inner.raises:
+        gs = reduce_guards(rg)
+        if any(_lit_test(g) == 'false' and pol for g, pol in gs) and 'ValueError' in repr(exc):
+            seen['false'] = True
+        else:
+            r.fail('_split_and_expr:raise', f'raises {str(exc)[:40]} under [{guards_repr(gs)}]', fi.where)
+    for pg, flow, binds, effs in inner.paths:
+        gs = reduce_guards(pg)
+        expr = next((x for g, _ in pg for x in walk(g) if _fname(x) == '_and_presplit_transform' and getattr(x, 'args', None) == (cur,)), None)
+        if expr is None:
+            r.fail('_split_and_expr:transform', 'the conjunct is tested without the pre-split transformation', fi.where)
+            continue
+        sh = Shapes()
+        for g, pol in gs:
+            if _lit_test(g) is None:
+                sh.read(g, pol)
+        is_and = sh.kind.get(canon(expr)) == 'and'
+        not_and = 'and' in sh.notkind.get(canon(expr), set())
+        pushes = [c for c in method_calls(list(effs), 'append') if call_recv(c) == outer.iter]
+        emits = [c for c in method_calls(list(effs), 'append') if call_recv(c) != outer.iter]
+        nxt = dict(binds).get(var)
+        if is_and:
+            pushed = {canon(c.args[0]) for c in pushes}
+            ops = {Attr(canon(expr), 'operand1'), Attr(canon(expr), 'operand2')}
+            if len(pushes) == 1 and pushed < ops and nxt is not None and {canon(nxt)} == ops - pushed and not emits and flow in ('end', 'continue'):
+                seen['and'] = True
+            else:
+                r.fail('_split_and_expr:and', f'a conjunction pushes {sorted(map(repr, pushed))}, goes on with {nxt!r} and emits {len(emits)}: one operand must wait on the work list, the walk must go on with the other, nothing is emitted', fi.where)
+        elif not_and:
+            if len(emits) == 1 and emits[0].args[0] == expr and not pushes and flow == 'break':
+                seen['emit'] = True
+            else:
+                r.fail('_split_and_expr:emit', 'an indivisible conjunct is not emitted exactly once, ending the walk', fi.where)
+        else:
+            r.fail('_split_and_expr:path', f'unrecognised path [{guards_repr(gs)}]', fi.where)
+    for k, label in (('true', 'literal true skipped'), ('false', 'literal false -> ValueError'), ('and', 'conjunction: one operand waits, the walk goes on with the other'), ('emit', 'other: emitted once')):
+        (r.ok(label) if seen[k] else r.fail(f'_split_and_expr:{k}', f'missing case: {label}', fi.where))
 
 
 def _r4_recursive(r: RuleResult, ev: Evaluator, hfi, out_index: int) -> None:
